@@ -2,10 +2,10 @@ package twin
 
 import (
 	"errors"
-	"regexp"
 	"fmt"
 	"os"
 	"path/filepath"
+	"regexp"
 	"sort"
 	"strings"
 	"sync"
@@ -52,8 +52,12 @@ type Session struct {
 
 // NewSession creates the Watcher (bufsize < 0: NewWatcher) and everything around it.
 func NewSession(dir string, bufsize int) (*Session, error) {
-	base := filepath.Join(dir, "t")
-	sent := filepath.Join(dir, "sentinel")
+	return NewSessionAt(filepath.Join(dir, "t"), filepath.Join(dir, "sentinel"), bufsize)
+}
+
+// NewSessionAt is NewSession with explicit working tree and sentinel directory
+// (several sessions may share one working tree).
+func NewSessionAt(base, sent string, bufsize int) (*Session, error) {
 	if err := os.MkdirAll(base, 0o755); err != nil {
 		return nil, err
 	}
